@@ -113,8 +113,18 @@ def contracts(reg):
 
     LO = "cfg.ranges[cfg.rank][0]"
     HI = "cfg.ranges[cfg.rank][1]"
+    def result_bdr(S, env):
+        from qvc.values import Range
+        cfg = S.ex.globals_heap["Manager"].fields["parallel_conf"]
+        from qvc.values import is_z3
+        lvl = cfg.fields.get("parallel_level")
+        if is_z3(lvl) or lvl == 1:
+            cfg.fields["ranges"] = S.fresh_symlist(cfg.fields["size"], width=2, prefix="ranges")
+        return Range(S.fresh_int("blk_lo"), S.fresh_int("blk_hi"))
+
     reg.add(Contract(
         PAR + "block_distributed_range", setup=setup_bdr, ghost=ghost_cfg, requires=CFG_OK, raises=RAISES,
+        result=result_bdr,
         ensures=[("serial-whole-range", "implies(cfg.parallel_level != 1, result.start == start and result.stop == stop)"),
                  ("parallel-own-block", "implies(cfg.parallel_level == 1, result.start == %s and result.stop == %s)" % (LO, HI))]
         + [("parallel-" + n, "implies(cfg.parallel_level == 1, %s)" % c)
